@@ -35,6 +35,8 @@ pub struct DocGen<'a> {
     pub behave: bool,
     /// allow strings at and beyond the 4096 byte boundary / numbers beyond 2^60
     pub big: bool,
+    /// few states, little content (images of a few hundred bytes)
+    pub small: bool,
     pub names: Vec<String>,
     pub vars: Vec<String>,
     pub counts: std::collections::BTreeMap<String, u64>,
@@ -44,7 +46,7 @@ pub struct DocGen<'a> {
 
 impl<'a> DocGen<'a> {
     pub fn new(p: &'a mut Prng, behave: bool, big: bool) -> DocGen<'a> {
-        DocGen { p, behave, big, names: vec![], vars: vec![], counts: Default::default(), next: 0, hist_target: String::new() }
+        DocGen { p, behave, big, small: false, names: vec![], vars: vec![], counts: Default::default(), next: 0, hist_target: String::new() }
     }
 
     fn cnt(&mut self, k: &str) {
@@ -58,7 +60,13 @@ impl<'a> DocGen<'a> {
     }
 
     fn tree(&mut self, depth: u32, parent_parallel: bool, top: bool) -> Vec<Node> {
-        let n = if depth == 0 { self.p.range(1, 3) } else { self.p.range(if parent_parallel { 2 } else { 1 }, 3) };
+        let n = if self.small {
+            self.p.range(if parent_parallel { 2 } else { 1 }, 2)
+        } else if depth == 0 {
+            self.p.range(1, 3)
+        } else {
+            self.p.range(if parent_parallel { 2 } else { 1 }, 3)
+        };
         let mut v = Vec::new();
         for _ in 0..n {
             let name = self.fresh();
@@ -70,7 +78,8 @@ impl<'a> DocGen<'a> {
             } else {
                 Kind::State
             };
-            let children = if kind != Kind::Final && depth < 2 && (kind == Kind::Parallel || self.p.chance(1, 2)) {
+            let maxd = if self.small { 1 } else { 2 };
+            let children = if kind != Kind::Final && depth < maxd && (kind == Kind::Parallel || self.p.chance(1, 2)) {
                 let mut c = self.tree(depth + 1, kind == Kind::Parallel, false);
                 if self.p.chance(1, 3) {
                     let hname = self.fresh();
@@ -289,9 +298,9 @@ impl<'a> DocGen<'a> {
     }
 
     pub fn content(&mut self, o: &mut String, depth: u32, in_finalize: bool) {
-        let n = self.p.range(0, 3);
+        let n = if self.small { self.p.range(0, 2) } else { self.p.range(0, 3) };
         for _ in 0..n {
-            let k = self.p.below(if depth >= 3 { 6 } else { 9 });
+            let k = self.p.below(if depth >= 3 || (self.small && depth >= 1) { 6 } else { 9 });
             match k {
                 0 if !in_finalize => {
                     self.cnt("ec_raise");
@@ -583,7 +592,7 @@ impl<'a> DocGen<'a> {
             self.datamodel(o, &pfx);
         }
         self.on_blocks(o);
-        for _ in 0..self.p.range(0, 3) {
+        for _ in 0..self.p.range(0, if self.small { 2 } else { 3 }) {
             self.transition(o, true);
         }
         if !self.behave && self.p.chance(1, 3) {
